@@ -194,16 +194,55 @@ pub fn g_char_literal() -> BS<Vec<u8>> {
         2 => ("[CMSHAs]", "[ -~]").prop_map(|(m, c)| format!("?\\{}-{}", m, c)),
         1 => ("[CMS]", "[CMS]", "[a-z]").prop_map(|(m, n, c)| format!("?\\{}-\\{}-{}", m, n, c)),
     ];
-    (lit, 0u8..6, prop_oneof![3 => Just(""), 1 => Just("a"), 1 => Just("1"), 1 => Just(";")])
+    // what directly follows the literal: nothing, ASCII, characters whose
+    // UTF-8 form ends in 0x80 or 0xBF, lone continuation and lead bytes
+    let junk = prop_oneof![
+        6 => Just(&b""[..]),
+        2 => Just(&b"a"[..]),
+        2 => Just(&b"1"[..]),
+        2 => Just(&b";"[..]),
+        1 => Just("\u{c0}".as_bytes()),
+        1 => Just("\u{100}".as_bytes()),
+        1 => Just("\u{1000}".as_bytes()),
+        1 => Just("\u{1F600}".as_bytes()),
+        1 => Just("\u{7ff}".as_bytes()),
+        1 => Just("\u{ffff}".as_bytes()),
+        1 => Just("\u{3bb}".as_bytes()),
+        1 => Just(&b"\x80"[..]),
+        1 => Just(&b"\xbf"[..]),
+        1 => Just(&b"\xc3"[..]),
+        1 => Just(&b"\xff"[..]),
+        1 => Just(&b"\x00"[..]),
+    ];
+    (lit, 0u8..6, junk)
         .prop_map(|(l, wrap, junk)| {
-            let t = match wrap {
-                0 => format!("({}{} x)", l, junk),
-                1 => format!("#({}{})", l, junk),
-                2 => format!("[x {}{}]", l, junk),
-                3 => format!("{}{} {}", l, junk, l),
-                _ => format!("{}{}", l, junk),
-            };
-            t.into_bytes()
+            let mut lj = l.clone().into_bytes();
+            lj.extend_from_slice(junk);
+            let mut t: Vec<u8> = Vec::new();
+            match wrap {
+                0 => {
+                    t.push(b'(');
+                    t.extend_from_slice(&lj);
+                    t.extend_from_slice(b" x)");
+                }
+                1 => {
+                    t.extend_from_slice(b"#(");
+                    t.extend_from_slice(&lj);
+                    t.push(b')');
+                }
+                2 => {
+                    t.extend_from_slice(b"[x ");
+                    t.extend_from_slice(&lj);
+                    t.push(b']');
+                }
+                3 => {
+                    t.extend_from_slice(&lj);
+                    t.push(b' ');
+                    t.extend_from_slice(l.as_bytes());
+                }
+                _ => t.extend_from_slice(&lj),
+            }
+            t
         })
         .boxed()
 }
